@@ -4,7 +4,7 @@ import sympy as sp
 from vsa import front
 from vsa.facts import Facts, unwrap, show, walk, lit_value
 from vsa.front import AnalysisBroken
-from vsa.alg import Fold, S, F as Fn, is_zero, guard_strs
+from vsa.alg import Fold, S, F as Fn, is_zero, guard_strs, vec_atoms
 from vsa.cfg import CFG
 
 LEVEL = "proof"
@@ -106,18 +106,42 @@ def run(rep, tier):
             ok = "getReorg12" in l1s and "getReorg21" in l2s and is_zero((l1 - Fn("getReorg12")(S("pair"), S("carriertype"))) + (l2 - Fn("getReorg21")(S("pair"), S("carriertype"))))
             why = "reorganisation energies are %s and %s" % (l1s, l2s)
     rep.check(ok, "R14.3", "rate-assembly", "rate12 = k(J2, dG, reorg12), rate21 = k(J2, -dG, reorg21), dG = dE12 + q R.F", "Rate_Engine::Rate: " + why, rt.loc(), sample=True)
-    # charge table
-    chg_decl = [d for d in rt.decls.values() if d.get("name") == "charge"]
-    table = {}
-    for n in rt.walk():
-        if n.get("k") == "assign" and n["op"] == "=" and nows(show(n["lhs"])) == "charge":
-            conds = [nows(show(a["cond"])) for a in rt.ancestors(n) if a.get("k") == "if"]
-            table[conds[0] if conds else "?"] = lit_value(n["rhs"])
-    ok = table.get("(carriertype==Electron)") == -1 and table.get("(carriertype==Hole)") == 1 and chg_decl and lit_value(chg_decl[0]["init"]) == 0
-    rep.check(bool(ok), "R14.3", "charge-table", "electron -1, hole +1, otherwise 0", "carrier charge table is %s (default %s)" % (table, show(chg_decl[0]["init"]) if chg_decl else "?"), rt.loc(), sample=True)
-    fdef = [n for n in rt.walk() if n.get("k") == "assign" and n["op"] == "=" and nows(show(n["lhs"])) == "dG_Field"]
-    ok = len(fdef) == 1 and nows(show(fdef[0]["rhs"])) in ("(charge*pair.R().dot(field_))", "(charge*field_.dot(pair.R()))")
-    rep.check(ok, "R14.3", "field-term", "dG_Field = q * R . F", "field term is %s" % (show(fdef[0]["rhs"]) if fdef else "?"), rt.loc())
+    # charge table and field term: the driving force of rate12 for each carrier kind
+    from vsa.cases import decide, resolve_ite, ites
+    conds_ = getattr(fo, "conds", {})
+
+    def carrier_oracle(leaf):
+        if isinstance(leaf, tuple) and len(leaf) == 3 and leaf[0] in ("==", "!="):
+            a_, b_ = str(leaf[1]), str(leaf[2])
+            for nm in ("Electron", "Hole"):
+                if a_.endswith("::" + nm) or b_.endswith("::" + nm):
+                    return ("is" + nm, leaf[0] == "==")
+        return None
+    okq, okf, got = len(calls) == 2, len(calls) == 2, {}
+    if len(calls) == 2:
+        g1 = calls[0][1]
+        pn, cn = rt.j["params"][0]["name"], rt.j["params"][1]["name"]
+        de = Fn("getdE12")(S(pn), S(cn))
+        RF = sum(a_ * b_ for a_, b_ in zip(vec_atoms("R(%s)" % pn), vec_atoms("field_")))
+        for kind, q_ in (("Electron", -1), ("Hole", 1), ("other", 0)):
+            atoms = {"isElectron": kind == "Electron", "isHole": kind == "Hole"}
+            v = resolve_ite(g1, lambda cs: decide(conds_.get(cs), None, atoms, carrier_oracle, conds_) if cs in conds_ else None) if hasattr(g1, "args") else g1
+            if isinstance(v, (tuple, sp.Matrix)) or ites(v):
+                raise AnalysisBroken("Rate_Engine::Rate: the driving force depends on a condition the rule does not know: %s" % str(v)[:160])
+            fld = sp.expand(v - de)
+            got[kind] = fld
+            if fld.has(de.func):
+                okf = False
+            elif sp.expand(fld - q_ * RF) != 0:
+                # q wrong (a multiple of R.F) or the field term is not R.F
+                ratio = sp.cancel(fld / RF) if fld != 0 else sp.Integer(0)
+                if getattr(ratio, "is_number", False):
+                    okq = False
+                else:
+                    okf = False
+    rep.check(bool(okq), "R14.3", "charge-table", "electron -1, hole +1, otherwise 0", "the field contribution to dG per carrier kind is %s x (R . F); required -1 (electron), +1 (hole), 0 (otherwise)" % (
+        {k_: str(sp.cancel(v_ / RF)) if v_ != 0 else "0" for k_, v_ in got.items()} if len(calls) == 2 else "?"), rt.loc(), sample=True)
+    rep.check(bool(okf), "R14.3", "field-term", "dG_Field = q * R . F", "the field term of the driving force is %s, not q (R . F)" % {k_: str(v_)[:80] for k_, v_ in got.items()}, rt.loc())
     thr = [" & ".join(guard_strs(fo, t)) for t in fo.throws]
     ok = any("Abs(" in t and "getReorg12" in t and "getReorg21" in t and "1/1000000000000" in t and "||" in t for t in thr)
     rep.check(ok, "R14.3", "zero-reorg-throws", "|reorg| < 1e-12 -> throw", "near-zero reorganisation energies do not throw (guards: %s)" % [t[:120] for t in thr], rt.loc())
